@@ -281,7 +281,7 @@ func (i IRIs) IsCollection() bool {
 // and ensures IRIs implements the Collection interface
 func (i *IRIs) Append(it ...Item) error {
 	for _, ob := range it {
-		if (*i).Contains(ob.GetLink()) {
+		if IsNil(ob) || (*i).Contains(ob.GetLink()) {
 			continue
 		}
 		*i = append(*i, ob.GetLink())
